@@ -1,7 +1,9 @@
 (* C08 — active task is always the running one; scheduler is clean after any outcome.
-   Statements only; proofs in proofs/MachineC08.v (first five theorems) and proofs/MachineC08U.v (the rest).
-   All theorems are about the executable machine of Machine.v and hold for EVERY program (nested synchronous
-   calls `Let`/`Sync` included; no tree restriction), every parameter record, flush oracle and fuel.
+   Statements only; proofs in proofs/MachineC08.v (first five theorems), proofs/MachineC08U.v (the next block) and
+   proofs/MachineNoUnwind.v (the last block, tree / stree programs only).
+   All theorems are about the executable machine of Machine.v and, except for the last block, hold for EVERY
+   program (nested synchronous calls `Let`/`Sync` included; no tree restriction), every parameter record, flush
+   oracle and fuel.
 
    Exceptions unwind through asynq's own frames from two places only (C08_unwind_sources): the
    MAX_TASK_STACK_SIZE guard (RuntimeError, E_RUNTIME) and _queue_exit (FutureIsAlreadyComputed, E_ALREADY).
@@ -32,15 +34,38 @@
      the probes in the catching task show Some [1]) and C08_guard_escapes_run (_GUARD_BATCH: the RuntimeError
      escapes with a batch scheduled; the next computation flushes only its own batch).
 
+   TREE PROGRAMS (proofs/MachineNoUnwind.v; [tree], [pointwise] of proofs/MachineC01.v; one root computation on st0):
+   * C08_tree_step_never_raises_already_computed: from a configuration satisfying the C01 invariant CInv no
+     step raises FutureIsAlreadyComputed (a returning body's task is not computed; a resumed task has a live
+     generator).  C08_tree_never_raises_already_computed: the FIRST unwinding of a run is E_RUNTIME, and the
+     configuration before it is the head of the _execute loop with len(tasks) > MAX_TASK_STACK_SIZE
+     ([guard_fires], the boolean test of Machine.step; C08_guard_fires_step: where it holds the step raises).
+     So guard_unwind_only - the hypothesis of the theorems above - holds up to and including the first unwinding,
+     and no_unwind is equivalent to "the guard is silent" (C08_tree_no_unwind_if_guard_silent, converse for
+     every program: C08_no_unwind_guard_silent).
+   * C08_tree_stack_bound: in every configuration reached without unwinding the task stack has no duplicates
+     and len(tasks) <= number of futures created (top_next).  C08_tree_guard_silent_while_few_futures: hence
+     no_unwind holds outright as long as top_next <= MAX_TASK_STACK_SIZE.
+   * C08_stree_step_never_raises_already_computed / C08_stree_never_raises_already_computed /
+     C08_stree_no_unwind_if_guard_silent: the first two points for [stree] programs (invariant CI of
+     proofs/MachineC01S.v); no stack bound there.
+   Not covered there: what happens AFTER the guard fired in a tree program (the RuntimeError escapes to the top:
+   tree programs have no Sync frame to catch it; C08_clean_after_outcome_U applies once guard_unwind_only is
+   known for the rest of the run, which is not proved here).
+
    NOT proved:
    * anything about runs in which FutureIsAlreadyComputed (E_ALREADY, raised by _queue_exit in
      MResume / MRun) unwinds: MUnwind pops _continue_with_task frames without restoring active_task and
-     leaves the task stack as it is, the invariant says nothing there;
+     leaves the task stack as it is, the invariant says nothing there.  For TREE programs, and for STREE
+     programs (tree + synchronous calls of fresh tasks), under a pointwise service this case is now shown
+     UNREACHABLE before the first firing of the guard (see the block above); for programs with stored handles,
+     and for stree runs after a caught guard error, it stays open;
    * runs that do not reach MDone within the fuel;
    * "the next computation behaves as on a fresh scheduler" as an equality of traces between the second
      computation of a history and the same computation on st0 (here: the scheduler-owned fields tasks / sb /
      active are those of st0; heap, batch registry, scoped values and the id counter are user state). *)
-From Asynq Require Import Machine proofs.MachineC08 proofs.MachineC08U.
+From Asynq Require Import Machine Seq proofs.MachineC08 proofs.MachineC08U proofs.MachineC01 proofs.MachineC01S
+     proofs.MachineNoUnwind.
 
 Theorem C08_active_is_running : forall P h s n t p,
   tasks s = [] -> no_unwind P n (start h s) ->
@@ -169,3 +194,85 @@ Theorem C08_guard_escapes_run :
     [EvSched 0 0 None; EvFlush 1 0 [[7]]; EvSched 0 0 None].
 Proof. exact guard_escapes_run. Qed.
 Print Assumptions C08_guard_escapes_run.
+
+(* ------------------------------------------------------------------ proofs/MachineNoUnwind.v (tree programs) *)
+Theorem C08_guard_fires_step : forall P c, guard_fires P c = true -> c_mode (step P c) = MUnwind E_RUNTIME.
+Proof. exact guard_fires_step. Qed.
+Print Assumptions C08_guard_fires_step.
+
+Theorem C08_tree_step_never_raises_already_computed : forall P root res spec c,
+  CInv root res spec c -> is_unwind (c_mode c) = false -> c_mode (step P c) <> MUnwind E_ALREADY.
+Proof. exact tree_step_not_already. Qed.
+Print Assumptions C08_tree_step_never_raises_already_computed.
+
+Theorem C08_tree_never_raises_already_computed : forall P p n e,
+  pointwise P -> tree p ->
+  let h := fst (create [] (FTask p) (st0 P)) in
+  let s1 := snd (create [] (FTask p) (st0 P)) in
+  (forall k, (k < n)%nat -> is_unwind (c_mode (run P k (start h s1))) = false) ->
+  c_mode (run P n (start h s1)) = MUnwind e ->
+  e = E_RUNTIME /\
+  exists m, n = S m /\ c_mode (run P m (start h s1)) = MExecLoop /\
+            (p_maxstack P < Z.of_nat (length (tasks (c_st (run P m (start h s1))))))%Z /\
+            guard_fires P (run P m (start h s1)) = true.
+Proof. exact (fun P p n e HP Ht => tree_unwind_is_guard P HP p Ht n e). Qed.
+Print Assumptions C08_tree_never_raises_already_computed.
+
+Theorem C08_tree_no_unwind_if_guard_silent : forall P p n,
+  pointwise P -> tree p ->
+  let h := fst (create [] (FTask p) (st0 P)) in
+  let s1 := snd (create [] (FTask p) (st0 P)) in
+  (forall k, (k < n)%nat -> guard_fires P (run P k (start h s1)) = false) -> no_unwind P n (start h s1).
+Proof. exact (fun P p n HP Ht => tree_no_unwind_iff_guard_silent P HP p Ht n). Qed.
+Print Assumptions C08_tree_no_unwind_if_guard_silent.
+
+Theorem C08_no_unwind_guard_silent : forall P n c,
+  no_unwind P n c -> forall k, (k < n)%nat -> guard_fires P (run P k c) = false.
+Proof. exact no_unwind_guard_silent. Qed.
+Print Assumptions C08_no_unwind_guard_silent.
+
+Theorem C08_tree_stack_bound : forall P p n,
+  pointwise P -> tree p ->
+  let h := fst (create [] (FTask p) (st0 P)) in
+  let s1 := snd (create [] (FTask p) (st0 P)) in
+  no_unwind P n (start h s1) -> is_final (c_mode (run P n (start h s1))) = false ->
+  NoDup (tasks (c_st (run P n (start h s1)))) /\
+  (Z.of_nat (length (tasks (c_st (run P n (start h s1))))) <= top_next (c_st (run P n (start h s1))))%Z.
+Proof. exact (fun P p n HP Ht => tree_stack_bound_run P HP p Ht n). Qed.
+Print Assumptions C08_tree_stack_bound.
+
+Theorem C08_tree_guard_silent_while_few_futures : forall P p n,
+  pointwise P -> tree p ->
+  let h := fst (create [] (FTask p) (st0 P)) in
+  let s1 := snd (create [] (FTask p) (st0 P)) in
+  (forall k, (k <= n)%nat -> (top_next (c_st (run P k (start h s1))) <= p_maxstack P)%Z) ->
+  no_unwind P n (start h s1).
+Proof. exact (fun P p n HP Ht => tree_guard_silent_while_few_futures P HP p Ht n). Qed.
+Print Assumptions C08_tree_guard_silent_while_few_futures.
+
+(* ---- the same for tree programs with synchronous calls ---- *)
+Theorem C08_stree_step_never_raises_already_computed : forall P res spec c,
+  CI res spec c -> is_unwind (c_mode c) = false -> c_mode (step P c) <> MUnwind E_ALREADY.
+Proof. exact stree_step_not_already. Qed.
+Print Assumptions C08_stree_step_never_raises_already_computed.
+
+Theorem C08_stree_never_raises_already_computed : forall P p n e,
+  pointwise P -> stree p ->
+  let h := fst (create [] (FTask p) (st0 P)) in
+  let s1 := snd (create [] (FTask p) (st0 P)) in
+  (forall k, (k < n)%nat -> is_unwind (c_mode (run P k (start h s1))) = false) ->
+  c_mode (run P n (start h s1)) = MUnwind e ->
+  e = E_RUNTIME /\
+  exists m, n = S m /\ c_mode (run P m (start h s1)) = MExecLoop /\
+            (p_maxstack P < Z.of_nat (length (tasks (c_st (run P m (start h s1))))))%Z /\
+            guard_fires P (run P m (start h s1)) = true.
+Proof. exact (fun P p n e HP Ht => stree_unwind_is_guard P HP p Ht n e). Qed.
+Print Assumptions C08_stree_never_raises_already_computed.
+
+Theorem C08_stree_no_unwind_if_guard_silent : forall P p n,
+  pointwise P -> stree p ->
+  let h := fst (create [] (FTask p) (st0 P)) in
+  let s1 := snd (create [] (FTask p) (st0 P)) in
+  (forall k, (k < n)%nat -> guard_fires P (run P k (start h s1)) = false) -> no_unwind P n (start h s1).
+Proof. exact (fun P p n HP Ht => stree_no_unwind_iff_guard_silent P HP p Ht n). Qed.
+Print Assumptions C08_stree_no_unwind_if_guard_silent.
